@@ -214,6 +214,14 @@ static std::vector<CallOp> alphabet_a() {
                    [a, b](Conn& c) { return do_invoke<IfA::Sum, int>(c, ref_sum(a, b), eq_plain<int>, a, b); },
                    "Sum(" + std::to_string(a) + "," + std::to_string(b) + ")"});
   }
+  // conforming arguments: the caller's integral types differ in width and signedness from the declared parameters; the
+  // request still carries the declared types (the handler decodes int, int)
+  ops.push_back({"Sum(short -65,uint8 200)",
+                 [](Conn& c) { return do_invoke<IfA::Sum, int>(c, ref_sum(-65, 200), eq_plain<int>, (short)-65, (std::uint8_t)200); }, "Sum(-65,200)"});
+  ops.push_back({"Sum(int64 300,uint16 40000)",
+                 [](Conn& c) { return do_invoke<IfA::Sum, int>(c, ref_sum(300, 40000), eq_plain<int>, (std::int64_t)300, (std::uint16_t)40000); }, "Sum(300,40000)"});
+  ops.push_back({"Lookup(uint16 5000)",
+                 [](Conn& c) { return do_invoke<IfA::Lookup, nop::Result<Err, std::string>>(c, ref_lookup(5000), eq_result, (std::uint16_t)5000); }, "Lookup(5000)"});
   for (std::string s : {std::string(""), std::string("hello"), std::string(300, 'x')}) {
     ops.push_back({"Length(" + std::to_string(s.size()) + "B)",
                    [s](Conn& c) { return do_invoke<IfA::Length, std::size_t>(c, s.size(), eq_plain<std::size_t>, s); }, "Length(" + s + ")"});
